@@ -344,6 +344,8 @@ func c06Size(c *Ctx) (evals int64) {
 		{{false, c06Pat, []string{"domain=src.org"}}},
 		{{false, c06Pat, []string{"script", "badfilter"}}, {true, c06Pat, nil}},
 		{{true, c06Pat, []string{"badfilter"}}, {true, c06Pat, nil}, {false, c06Pat, []string{"important"}}},
+		// a domain-specific block with seventeen modifiers stays a block: a plain exception beats it
+		{{false, c06Pat, []string{"script", "image", "stylesheet", "object", "subdocument", "xmlhttprequest", "media", "font", "websocket", "ping", "other", "third-party", "match-case", "domain=src.org", "denyallow=x.com", "ctag=~tv", "client=~nobody"}}, {true, c06Pat, nil}},
 	}
 	sources := [][]srule{nil, {{true, c06SrcPat, []string{"genericblock"}}}, {{true, c06SrcPat, []string{"urlblock"}}}}
 	for _, n := range []int{9, 17, 33} {
@@ -384,6 +386,26 @@ func c06Size(c *Ctx) (evals int64) {
 						return evals
 					}
 				}
+			}
+		}
+	}
+	// three hundred blocking rules that share one shortcut, then one exception: through the engines
+	{
+		var lines []string
+		for i := 0; i < 300; i++ {
+			lines = append(lines, fmt.Sprintf("%s$domain=f%03d.example|src.org", c06Pat, i))
+		}
+		lines = append(lines, "@@"+c06Pat)
+		st := stringStorage(joinLines(lines) + "\n")
+		req := rules.NewRequest(c06URL, c06Src, rules.TypeScript)
+		b1 := urlfilter.NewEngine(st).MatchRequest(req).GetBasicResult()
+		b2, _ := urlfilter.NewNetworkEngine(st).Match(req)
+		evals += 2
+		for which, b := range []*rules.NetworkRule{b1, b2} {
+			if c06ClassOfRule(b) != 2 {
+				c.Run.Violate(ev.Violation{Pred: "engine-verdict-equals-reference", Sig: map[string]any{"size": 301, "engine": which},
+					What:   fmt.Sprintf("%s over 300 domain-specific blocking rules and one exception for %s: %s, documented precedence gives allow", []string{"Engine.MatchRequest", "NetworkEngine.Match"}[which], c06URL, renderNetText(b)),
+					Replay: map[string]any{"doc_only": true}})
 			}
 		}
 	}
